@@ -14,15 +14,16 @@ EXTENDS Integers, Sequences, SequencesExt, FiniteSets, FiniteSetsExt, TLC, TLCEx
 Traces == JsonDeserialize(IOEnv.TRACES_FILE)
 VARIABLES tid, l, folds, sizes, testIdx, haveIdx, nTrain, predSeen, written, failedAt,
           fit,      \* thread -> state of the Model.fit running on it (ModelFit.tla: Start / FitEstimator / Relabel / Done)
-          buf       \* buffered writer -> [app, wr, size, fin] (TabularWrite.tla: Append / Flush / Finalize)
-vars == <<tid, l, folds, sizes, testIdx, haveIdx, nTrain, predSeen, written, failedAt, fit, buf>>
+          buf,      \* buffered writer -> [app, wr, size, fin] (TabularWrite.tla: Append / Flush / Finalize)
+          stage     \* command-line run (Pipeline.tla): 0 not started / finished, 1 verifying inputs, 2 inputs parsed and named
+vars == <<tid, l, folds, sizes, testIdx, haveIdx, nTrain, predSeen, written, failedAt, fit, buf, stage>>
 T == Traces[tid]
 E == T.events[l]
 SeqSet(s) == {s[i] : i \in 1..Len(s)}
 SumSeq(s) == FoldSet(LAMBDA i, a : a + s[i], 0, 1..Len(s))
 Init == /\ tid \in 1..Len(Traces) /\ l = 1 /\ folds = 0 /\ sizes = <<>> /\ testIdx = <<>> /\ haveIdx = FALSE /\ nTrain = 0
         /\ predSeen = <<>> /\ written = <<>> /\ failedAt = <<>>
-        /\ fit = <<>> /\ buf = <<>>
+        /\ fit = <<>> /\ buf = <<>> /\ stage = 0
 More == l <= Len(T.events) /\ failedAt = <<>>
 \* ---- per-event obligations: a set of failed clause names ----
 SplitBad ==
@@ -117,19 +118,25 @@ ColumnChunksBad ==
 PinParsedBad ==
    LET dropped == SeqSet(E.dropped) IN
    (IF E.kept = SelectSeq(E.features, LAMBDA c : c \notin dropped) THEN {} ELSE {"P:PinParsed.features_not_the_columns_without_missing_values"})
+CliVerifyBad == IF stage \in {0, 1} THEN {} ELSE {"D:CliVerify.after_the_inputs_were_parsed"}
+CliDoneBad ==
+   (IF stage = 2 THEN {} ELSE {"D:CliConfidenceDone.without_plan"}) \cup
+   (IF E.nscores = E.npsms THEN {} ELSE {"D:CliConfidenceDone.one_score_vector_per_dataset"})
 CliPlanBad ==
    LET single == E.aggregate \/ Len(E.stems) = 1 IN
    (IF Len(E.prefixes) = Len(E.stems) THEN {} ELSE {"D:CliPlan.one_prefix_per_file"}) \cup
    (IF Len(E.prefixes) # Len(E.stems) THEN {} ELSE
     IF \A i \in 1..Len(E.stems) : E.prefixes[i] = (IF single THEN "" ELSE E.stems[i]) THEN {} ELSE {"D:CliPlan.prefix_rule"}) \cup
-   (IF E.ndatasets = Len(E.stems) THEN {} ELSE {"D:CliPlan.one_dataset_per_file"})
+   (IF E.ndatasets = Len(E.stems) THEN {} ELSE {"D:CliPlan.one_dataset_per_file"}) \cup
+   (IF stage \in {0, 1} THEN {} ELSE {"D:CliPlan.twice"})
 Bad == CASE E.ev = "Split" -> SplitBad [] E.ev = "TrainSet" -> TrainBad [] E.ev = "ModelsSorted" -> SortedBad
          [] E.ev = "PredictChunk" -> PredictBad [] E.ev = "Decision" -> DecisionBad [] E.ev = "ChunkWritten" -> ChunkBad
          [] E.ev = "MergeList" -> MergeBad [] E.ev = "LevelDone" -> LevelBad
          [] E.ev = "FitStart" -> FitStartBad [] E.ev = "FitIter" -> FitIterBad [] E.ev = "FitLabels" -> FitLabelsBad
          [] E.ev = "FitDone" -> FitDoneBad [] E.ev = "BufAppend" -> BufAppendBad [] E.ev = "BufWrite" -> BufWriteBad
          [] E.ev = "BufFinalize" -> BufFinalizeBad [] E.ev = "ColumnChunks" -> ColumnChunksBad
-         [] E.ev = "PinParsed" -> PinParsedBad [] E.ev = "CliPlan" -> CliPlanBad [] OTHER -> {}
+         [] E.ev = "PinParsed" -> PinParsedBad [] E.ev = "CliPlan" -> CliPlanBad
+         [] E.ev = "CliVerify" -> CliVerifyBad [] E.ev = "CliConfidenceDone" -> CliDoneBad [] OTHER -> {}
 \* ---- one step: consume event l ----
 Step ==
   /\ More
@@ -158,6 +165,7 @@ Step ==
              ELSE IF E.ev = "BufWrite" THEN (E.w :> [BufOf(E.w) EXCEPT !.wr = @ + E.rows]) @@ buf
              ELSE IF E.ev = "BufFinalize" THEN (E.w :> [BufOf(E.w) EXCEPT !.fin = TRUE]) @@ buf
              ELSE buf
+  /\ stage' = IF E.ev = "CliVerify" THEN 1 ELSE IF E.ev = "CliPlan" THEN 2 ELSE IF E.ev = "CliConfidenceDone" THEN 0 ELSE stage
   /\ UNCHANGED tid
 Spec == Init /\ [][Step]_vars
 Terminal == ~More
